@@ -58,7 +58,7 @@ def variants(rng, case):
     rng.shuffle(sh)
     out.append(("base-reordered", dict(case, base=sh)))
     zk = list(base)
-    if zk:  # key 0 for a random conditional, others keep theirs: collides with reserved slots
+    if zk and all(k != 0 for (k, _, _) in zk):  # key 0 for a random conditional, others keep theirs: collides with reserved slots
         j = rng.randrange(m)
         zk[j] = (0, zk[j][1], zk[j][2])
         out.append(("one-key-0", dict(case, base=zk)))
